@@ -102,7 +102,12 @@ def render(case):
     if case.get('undeclared'):
         out.append('[undeclared %s]' % ' '.join(str(c) for c in case['undeclared']))
     if case.get('file_options'):
-        out.append('[droop %s]' % ' '.join(case['file_options']))
+        fo, k = case['file_options'], case.get('droop_split')
+        if k and 0 < k < len(fo):       # several [droop ...] groups accumulate
+            out.append('[droop %s]' % ' '.join(fo[:k]))
+            out.append('[droop %s]' % ' '.join(fo[k:]))
+        else:
+            out.append('[droop %s]' % ' '.join(fo))
     if case.get('withdrawn'):
         out.append(' '.join('-%d' % c for c in case['withdrawn']))
     for m, ranking in case['ballots']:
